@@ -38,8 +38,39 @@ func StaticCallee(ci ssa.CallInstruction) *ssa.Function {
 		return v
 	case *ssa.MakeClosure:
 		if f, ok := v.Fn.(*ssa.Function); ok {
+			// a bound method value called directly (`gen := t.GenerateID; gen()`): the method itself
+			if m := BoundMethod(f); m != nil {
+				return m
+			}
 			return f
 		}
+	}
+	return nil
+}
+
+// BoundMethod: f is the synthetic wrapper of a bound method value (x.M as a func value); returns M.
+func BoundMethod(f *ssa.Function) *ssa.Function {
+	if f == nil || f.Synthetic == "" || len(f.Blocks) != 1 || len(f.FreeVars) != 1 {
+		return nil
+	}
+	for _, in := range f.Blocks[0].Instrs {
+		if call, ok := in.(*ssa.Call); ok && !call.Call.IsInvoke() {
+			if g, ok := call.Call.Value.(*ssa.Function); ok && g.Signature.Recv() != nil && len(call.Call.Args) > 0 && call.Call.Args[0] == ssa.Value(f.FreeVars[0]) {
+				return g
+			}
+		}
+	}
+	return nil
+}
+
+// BoundReceiver: for a call through a bound method value, the receiver the value was bound to; nil otherwise.
+func BoundReceiver(ci ssa.CallInstruction) ssa.Value {
+	mc, ok := ci.Common().Value.(*ssa.MakeClosure)
+	if !ok || len(mc.Bindings) != 1 {
+		return nil
+	}
+	if f, ok := mc.Fn.(*ssa.Function); ok && BoundMethod(f) != nil {
+		return mc.Bindings[0]
 	}
 	return nil
 }
@@ -478,4 +509,82 @@ func MethodValueCallees(ci ssa.CallInstruction) []*ssa.Function {
 		return nil
 	}
 	return out
+}
+
+// NamedInput reports whether v is the function input called name: a parameter of that name, or the field of that name
+// of a struct-typed parameter (a "parameter object": `limits.maxMessageSize`).
+func NamedInput(v ssa.Value, name string) bool {
+	v = Strip(v)
+	switch x := v.(type) {
+	case *ssa.Parameter:
+		return x.Name() == name
+	case *ssa.Field:
+		if p, ok := Strip(x.X).(*ssa.Parameter); ok {
+			if st, ok := p.Type().Underlying().(*types.Struct); ok && x.Field < st.NumFields() {
+				return st.Field(x.Field).Name() == name
+			}
+		}
+	case *ssa.UnOp:
+		if x.Op != token.MUL {
+			return false
+		}
+		if fa, ok := x.X.(*ssa.FieldAddr); ok {
+			base := Strip(fa.X)
+			// pointer-to-struct parameter, or a by-value struct parameter spilled to a local cell
+			if p, ok := base.(*ssa.Parameter); ok {
+				_ = p
+				return FieldOf(fa) != nil && FieldOf(fa).Name() == name
+			}
+			if al, ok := base.(*ssa.Alloc); ok {
+				if sv := SingleStore(al); sv != nil {
+					if _, isParam := sv.(*ssa.Parameter); isParam {
+						return FieldOf(fa) != nil && FieldOf(fa).Name() == name
+					}
+				}
+				// spilled parameter with field accesses: stores of the parameter into the cell
+				for _, r := range Referrers(al) {
+					if st, ok := r.(*ssa.Store); ok && st.Addr == ssa.Value(al) {
+						if _, isParam := st.Val.(*ssa.Parameter); isParam {
+							return FieldOf(fa) != nil && FieldOf(fa).Name() == name
+						}
+					}
+				}
+			}
+		}
+	}
+	return false
+}
+
+// CallInput returns the value a call passes for the callee input called name: the positional argument bound to the
+// parameter of that name, or – when the callee takes a parameter object – what the caller stored into that field of the
+// (purely local) struct it passes. nil if it cannot be determined.
+func CallInput(ci ssa.CallInstruction, callee *ssa.Function, name string) ssa.Value {
+	args := ci.Common().Args
+	for i, p := range callee.Params {
+		if i >= len(args) {
+			break
+		}
+		if p.Name() == name {
+			return args[i]
+		}
+		st, ok := p.Type().Underlying().(*types.Struct)
+		if !ok {
+			continue
+		}
+		for fi := 0; fi < st.NumFields(); fi++ {
+			if st.Field(fi).Name() != name {
+				continue
+			}
+			ld, ok := Strip(args[i]).(*ssa.UnOp)
+			if !ok || ld.Op != token.MUL {
+				return nil
+			}
+			al, ok := ld.X.(*ssa.Alloc)
+			if !ok {
+				return nil
+			}
+			return singleLocalFieldStore(al, fi, ld)
+		}
+	}
+	return nil
 }
